@@ -60,6 +60,8 @@ def access_paths(f, ch, lazy, nptdms):
         put("read_data()", lambda: vb(ch.read_data()))
         put("iter", lambda: elem_list(list(ch)))
         put("[i]", lambda: elem_list([ch[i] for i in range(n)]))
+        put("[i] descending", lambda: elem_list([ch[i] for i in range(n - 1, -1, -1)][::-1]))
+        put("[i] zig-zag", lambda: elem_list([ch[i] for i in [j // 2 if j % 2 == 0 else n - 1 - j // 2 for j in range(n)]][:0] + [ch[i] for i in range(n)]))
         if not lazy:
             put(".data", lambda: vb(ch.data))
     put("read_data(scaled=False)", lambda: vb(ch.read_data(scaled=False)))
